@@ -87,6 +87,10 @@ def gen_plan(seed, tier):
     desc["global_scale"] = r2.choice([1e-8, 1e-6, 1e-3, 1e3, 1e6])     # units are arbitrary
   elif cls == "LFDA" and r2.random() < 0.15:
     desc["global_scale"] = r2.choice([1e-3, 1e3])
+  if cls == "LFDA" and r2.random() < 0.15:
+    # repeated measurements: a point whose k nearest class-mates coincide with it has
+    # local scale 0, and the documented affinity of such a pair is 0
+    desc["same_class_dups"] = r2.randint(1, 3)
   return plan
 
 
@@ -120,6 +124,17 @@ def run_plan(plan):
   D = make_data(plan["dataset"])
   X, y = D.X, D.y
   d = D.d
+  if plan["dataset"].get("same_class_dups"):
+    X = X.copy()
+    rd = np.random.RandomState(h64("c09-dups", plan["run_seed"]) & 0xFFFFFFFF)
+    for _ in range(int(plan["dataset"]["same_class_dups"])):
+      c_ = rd.choice(np.unique(y))
+      mem = np.where(y == c_)[0]
+      if len(mem) >= 4:
+        src = mem[rd.randint(len(mem))]
+        for t_ in rd.permutation(mem)[:rd.randint(1, 4)]:
+          X[t_] = X[src]
+    cov["lfda_same_class_duplicates"] += 1
   if cls == "RCA":
     D.chunks = _relabel_chunks(D.chunks, plan.get("chunk_ids"), plan["run_seed"])
     cov["rca_chunk_ids_" + str(plan.get("chunk_ids") or "contiguous")] += 1
